@@ -1,1 +1,504 @@
+(* Lemmas on the nom combinators of Nom.v.
 
+   [safe p]   : p never answers Incomplete, never exhausts the model's fuel, and its rest is
+                not longer than its input;
+   [strict p] : ... and the rest is strictly shorter (the parser consumes).
+   These are the facts behind "the parser terminates and `Error::from(Incomplete)` is not
+   reached" (C15); the second half of the file computes the combinators on printed text
+   (C14 round trip). *)
+From Coq Require Import List Bool Arith NArith Lia.
+From Coq Require Import Init.Byte.
+From LMTransfac Require Import Bytes Nom.
+Import ListNotations.
+
+(* ---- results ---- *)
+
+Definition ok_le {A} (n : nat) (x : pres A) : Prop :=
+  match x with
+  | POk _ r => length r <= n
+  | PIncomplete | PFuel => False
+  | _ => True
+  end.
+
+Definition ok_lt {A} (n : nat) (x : pres A) : Prop :=
+  match x with
+  | POk _ r => length r < n
+  | PIncomplete | PFuel => False
+  | _ => True
+  end.
+
+Definition safe {A} (p : parser A) : Prop := forall i, ok_le (length i) (p i).
+Definition strict {A} (p : parser A) : Prop := forall i, ok_lt (length i) (p i).
+
+Lemma ok_lt_le {A} n (x : pres A) : ok_lt n x -> ok_le n x.
+Proof. destruct x; simpl; auto. lia. Qed.
+
+Lemma ok_le_mono {A} n m (x : pres A) : n <= m -> ok_le n x -> ok_le m x.
+Proof. destruct x; simpl; auto. lia. Qed.
+
+Lemma ok_lt_mono {A} n m (x : pres A) : n <= m -> ok_lt n x -> ok_lt m x.
+Proof. destruct x; simpl; auto. lia. Qed.
+
+Lemma ok_le_lt {A} n m (x : pres A) : n < m -> ok_le n x -> ok_lt m x.
+Proof. destruct x; simpl; auto. lia. Qed.
+
+Lemma strict_safe {A} (p : parser A) : strict p -> safe p.
+Proof. intros H i. apply ok_lt_le, H. Qed.
+
+Lemma ok_le_bind {A B} n m (x : pres A) (k : A -> str -> pres B) :
+  ok_le n x -> (forall a r, length r <= n -> ok_le m (k a r)) -> ok_le m (pbind x k).
+Proof. destruct x; simpl; auto. Qed.
+
+Lemma ok_lt_bind {A B} n m (x : pres A) (k : A -> str -> pres B) :
+  ok_lt n x -> (forall a r, length r < n -> ok_le m (k a r)) -> ok_le m (pbind x k).
+Proof. destruct x; simpl; auto. Qed.
+
+Lemma ok_le_bind_lt {A B} n m (x : pres A) (k : A -> str -> pres B) :
+  ok_le n x -> (forall a r, length r <= n -> ok_lt m (k a r)) -> ok_lt m (pbind x k).
+Proof. destruct x; simpl; auto. Qed.
+
+(* ---- byte-string helpers ---- *)
+
+Lemma beq_refl b : beq b b = true.
+Proof. unfold beq. apply Byte.byte_dec_lb. reflexivity. Qed.
+
+Lemma beq_eq a b : beq a b = true -> a = b.
+Proof. unfold beq. apply Byte.byte_dec_bl. Qed.
+
+Lemma str_eqb_true a : forall b, str_eqb a b = true -> a = b.
+Proof.
+  induction a as [|x a IH]; intros [|y b]; simpl; intros H; try discriminate; [reflexivity|].
+  apply andb_true_iff in H. destruct H as [H1 H2]. apply beq_eq in H1. rewrite (IH _ H2), H1. reflexivity.
+Qed.
+
+Lemma span_app f l : forall p r, span f l = (p, r) -> l = p ++ r.
+Proof.
+  induction l as [|b t IH]; simpl; intros p r H.
+  - inversion H; reflexivity.
+  - destruct (f b).
+    + destruct (span f t) as [p' r'] eqn:E. inversion H; subst. simpl. f_equal. apply IH. reflexivity.
+    + inversion H; reflexivity.
+Qed.
+
+Lemma span_length f l p r : span f l = (p, r) -> length l = length p + length r.
+Proof. intros H. rewrite (span_app _ _ _ _ H) at 1. apply app_length. Qed.
+
+Lemma span_all f l : forall p r, span f l = (p, r) -> forallb f p = true.
+Proof.
+  induction l as [|b t IH]; simpl; intros p r H.
+  - inversion H; reflexivity.
+  - destruct (f b) eqn:F.
+    + destruct (span f t) as [p' r'] eqn:E. inversion H; subst. simpl. rewrite F. apply (IH _ _ eq_refl).
+    + inversion H; reflexivity.
+Qed.
+
+(* span over a block of matching bytes followed by a non-matching byte (or nothing) *)
+Lemma span_block f a r :
+  forallb f a = true -> match r with [] => True | b :: _ => f b = false end ->
+  span f (a ++ r) = (a, r).
+Proof.
+  intros Ha Hr. induction a as [|x a IH]; simpl in *.
+  - destruct r as [|b t]; [reflexivity|]. simpl. rewrite Hr. reflexivity.
+  - apply andb_true_iff in Ha. destruct Ha as [Hx Ha]. rewrite Hx, (IH Ha). reflexivity.
+Qed.
+
+Lemma starts_with_length t i : starts_with t i = true -> length t <= length i.
+Proof.
+  revert i. induction t as [|x t IH]; simpl; intros i H; [lia|].
+  destruct i as [|y i]; [discriminate|]. apply andb_true_iff in H. destruct H as [_ H].
+  specialize (IH _ H). simpl. lia.
+Qed.
+
+Lemma starts_with_app t r : starts_with t (t ++ r) = true.
+Proof. induction t as [|x t IH]; simpl; [reflexivity|]. rewrite beq_refl. exact IH. Qed.
+
+Lemma starts_with_nocase_length t i : starts_with_nocase t i = true -> length t <= length i.
+Proof.
+  revert i. induction t as [|x t IH]; simpl; intros i H; [lia|].
+  destruct i as [|y i]; [discriminate|]. apply andb_true_iff in H. destruct H as [_ H].
+  specialize (IH _ H). simpl. lia.
+Qed.
+
+(* ---- leaves ---- *)
+
+Lemma safe_tag t : safe (tag t).
+Proof.
+  intros i. unfold tag. destruct (starts_with t i); simpl; [|exact I].
+  rewrite skipn_length. lia.
+Qed.
+
+Lemma strict_tag t : t <> [] -> strict (tag t).
+Proof.
+  intros Ht i. unfold tag. destruct (starts_with t i) eqn:E; simpl; [|exact I].
+  apply starts_with_length in E. rewrite skipn_length.
+  destruct t; [congruence|]. simpl in *. lia.
+Qed.
+
+Lemma safe_tag_no_case t : safe (tag_no_case t).
+Proof.
+  intros i. unfold tag_no_case. destruct (starts_with_nocase t i); simpl; [|exact I].
+  rewrite skipn_length. lia.
+Qed.
+
+Lemma strict_char c : strict (char_ c).
+Proof. intros [|b r]; simpl; [exact I|]. destruct (beq c b); simpl; [lia|exact I]. Qed.
+
+Lemma safe_space0 : safe space0.
+Proof.
+  intros i. unfold space0. destruct (span is_blank i) as [p r] eqn:E. simpl.
+  apply span_length in E. lia.
+Qed.
+
+Lemma safe_space1_complete : safe space1_complete.
+Proof.
+  intros i. unfold space1_complete. destruct (span is_blank i) as [p r] eqn:E.
+  apply span_length in E. destruct p; simpl in *; [exact I|lia].
+Qed.
+
+Lemma strict_digit1 : strict digit1.
+Proof.
+  intros i. unfold digit1. destruct (span is_digit i) as [p r] eqn:E.
+  apply span_length in E. destruct p; simpl in *; [exact I|lia].
+Qed.
+
+Lemma strict_line_ending : strict line_ending.
+Proof.
+  intros [|b r]; simpl; [exact I|].
+  destruct b; simpl; try exact I; try lia.
+  destruct r as [|c r]; simpl; [exact I|]. destruct c; simpl; try exact I; lia.
+Qed.
+
+Lemma safe_eof : safe eof.
+Proof. intros [|b r]; simpl; [lia|exact I]. Qed.
+
+Lemma safe_take_till c : safe (take_till c).
+Proof.
+  intros i. unfold take_till. destruct (span _ i) as [p r] eqn:E. simpl.
+  apply span_length in E. lia.
+Qed.
+
+Lemma uint_loop_ok maxv i : forall acc first,
+  ok_le (length i) (uint_loop maxv i acc first) /\
+  (first = true -> ok_lt (length i) (uint_loop maxv i acc first)).
+Proof.
+  induction i as [|b t IH]; intros acc first; simpl.
+  - destruct first; simpl; split; auto; try lia; try discriminate.
+  - destruct (is_digit b).
+    + destruct (N.ltb maxv _); simpl; [split; auto|].
+      destruct (IH (acc * 10 + digit_val b)%N false) as [H _].
+      split; [eapply ok_le_mono; [|exact H]; lia|].
+      intros _. eapply ok_le_lt; [|exact H]. lia.
+    + destruct first; simpl; split; auto; try lia; try discriminate.
+Qed.
+
+Lemma strict_uint maxv : strict (uint maxv).
+Proof. intros i. unfold uint. apply uint_loop_ok. reflexivity. Qed.
+
+(* ---- combinators ---- *)
+
+Lemma safe_pmap {A B} (f : A -> B) p : safe p -> safe (pmap f p).
+Proof.
+  intros H i. unfold pmap. eapply ok_le_bind; [apply H|]. intros a r L. exact L.
+Qed.
+
+Lemma strict_pmap {A B} (f : A -> B) p : strict p -> strict (pmap f p).
+Proof.
+  intros H i. unfold pmap. specialize (H i). destruct (p i); simpl in *; auto.
+Qed.
+
+Lemma safe_preceded {A B} (p : parser A) (q : parser B) : safe p -> safe q -> safe (preceded p q).
+Proof.
+  intros Hp Hq i. unfold preceded. eapply ok_le_bind; [apply Hp|].
+  intros a r L. eapply ok_le_mono; [exact L|apply Hq].
+Qed.
+
+Lemma strict_preceded_l {A B} (p : parser A) (q : parser B) :
+  strict p -> safe q -> strict (preceded p q).
+Proof.
+  intros Hp Hq i. unfold preceded. specialize (Hp i). destruct (p i); simpl in *; auto.
+  eapply ok_le_lt; [exact Hp|apply Hq].
+Qed.
+
+Lemma strict_preceded_r {A B} (p : parser A) (q : parser B) :
+  safe p -> strict q -> strict (preceded p q).
+Proof.
+  intros Hp Hq i. unfold preceded. specialize (Hp i). destruct (p i); simpl in *; auto.
+  eapply ok_lt_mono; [exact Hp|apply Hq].
+Qed.
+
+Lemma safe_terminated {A B} (p : parser A) (q : parser B) : safe p -> safe q -> safe (terminated p q).
+Proof.
+  intros Hp Hq i. unfold terminated. eapply ok_le_bind; [apply Hp|].
+  intros a r L. eapply ok_le_bind; [apply Hq|]. intros b r' L'. simpl. lia.
+Qed.
+
+Lemma strict_terminated_l {A B} (p : parser A) (q : parser B) :
+  strict p -> safe q -> strict (terminated p q).
+Proof.
+  intros Hp Hq i. unfold terminated. specialize (Hp i). destruct (p i); simpl in *; auto.
+  specialize (Hq rest). destruct (q rest); simpl in *; auto. lia.
+Qed.
+
+Lemma strict_terminated_r {A B} (p : parser A) (q : parser B) :
+  safe p -> strict q -> strict (terminated p q).
+Proof.
+  intros Hp Hq i. unfold terminated. specialize (Hp i). destruct (p i); simpl in *; auto.
+  specialize (Hq rest). destruct (q rest); simpl in *; auto. lia.
+Qed.
+
+Lemma safe_delimited {A B C} (p : parser A) (q : parser B) (s : parser C) :
+  safe p -> safe q -> safe s -> safe (delimited p q s).
+Proof.
+  intros Hp Hq Hs i. unfold delimited. eapply ok_le_bind; [apply Hp|].
+  intros a r L. eapply ok_le_bind; [apply Hq|]. intros b r' L'.
+  eapply ok_le_bind; [apply Hs|]. intros c r'' L''. simpl. lia.
+Qed.
+
+Lemma strict_delimited_l {A B C} (p : parser A) (q : parser B) (s : parser C) :
+  strict p -> safe q -> safe s -> strict (delimited p q s).
+Proof.
+  intros Hp Hq Hs i. unfold delimited. specialize (Hp i). destruct (p i); simpl in *; auto.
+  specialize (Hq rest). destruct (q rest); simpl in *; auto.
+  specialize (Hs rest0). destruct (s rest0); simpl in *; auto. lia.
+Qed.
+
+Lemma strict_delimited_m {A B C} (p : parser A) (q : parser B) (s : parser C) :
+  safe p -> strict q -> safe s -> strict (delimited p q s).
+Proof.
+  intros Hp Hq Hs i. unfold delimited. specialize (Hp i). destruct (p i); simpl in *; auto.
+  specialize (Hq rest). destruct (q rest); simpl in *; auto.
+  specialize (Hs rest0). destruct (s rest0); simpl in *; auto. lia.
+Qed.
+
+Lemma safe_pair {A B} (p : parser A) (q : parser B) : safe p -> safe q -> safe (pair_ p q).
+Proof.
+  intros Hp Hq i. unfold pair_. eapply ok_le_bind; [apply Hp|].
+  intros a r L. eapply ok_le_bind; [apply Hq|]. intros b r' L'. simpl. lia.
+Qed.
+
+Lemma strict_pair_l {A B} (p : parser A) (q : parser B) : strict p -> safe q -> strict (pair_ p q).
+Proof.
+  intros Hp Hq i. unfold pair_. specialize (Hp i). destruct (p i); simpl in *; auto.
+  specialize (Hq rest). destruct (q rest); simpl in *; auto. lia.
+Qed.
+
+Lemma safe_alt2 {A} (p q : parser A) : safe p -> safe q -> safe (alt2 p q).
+Proof. intros Hp Hq i. unfold alt2. specialize (Hp i). destruct (p i); simpl in *; auto; try apply Hq. Qed.
+
+Lemma strict_alt2 {A} (p q : parser A) : strict p -> strict q -> strict (alt2 p q).
+Proof. intros Hp Hq i. unfold alt2. specialize (Hp i). destruct (p i); simpl in *; auto; try apply Hq. Qed.
+
+Lemma safe_opt {A} (p : parser A) : safe p -> safe (opt p).
+Proof. intros Hp i. unfold opt. specialize (Hp i). destruct (p i); simpl in *; auto. Qed.
+
+Lemma safe_cut {A} (p : parser A) : safe p -> safe (cut p).
+Proof. intros Hp i. unfold cut. specialize (Hp i). destruct (p i); simpl in *; auto. Qed.
+
+Lemma many_loop_ok {A} (p : parser A) : safe p ->
+  forall f i acc, length i < f -> ok_le (length i) (many_loop p f i acc).
+Proof.
+  intros Hp. induction f as [|f IH]; intros i acc L; [lia|]. simpl.
+  specialize (Hp i). destruct (p i) as [a r| | | |]; simpl in *; auto.
+  destruct (Nat.eqb (length r) (length i)) eqn:E; simpl; [exact I|].
+  apply Nat.eqb_neq in E. eapply ok_le_mono; [|apply IH]; lia.
+Qed.
+
+Lemma safe_many1 {A} (p : parser A) : safe p -> safe (many1 p).
+Proof.
+  intros Hp i. unfold many1. pose proof (Hp i) as H. destruct (p i) as [a r| | | |]; cbn [ok_le ok_lt] in *; auto.
+  eapply ok_le_mono; [exact H|]. apply many_loop_ok; [exact Hp|lia].
+Qed.
+
+Lemma strict_many1 {A} (p : parser A) : strict p -> strict (many1 p).
+Proof.
+  intros Hp i. unfold many1. pose proof (Hp i) as H. destruct (p i) as [a r| | | |]; cbn [ok_le ok_lt] in *; auto.
+  eapply ok_le_lt; [exact H|]. apply many_loop_ok; [apply strict_safe; exact Hp|lia].
+Qed.
+
+Lemma safe_count {A} (p : parser A) n : safe p -> safe (count_ p n).
+Proof.
+  intros Hp. induction n as [|n IH]; intros i; simpl; [lia|].
+  eapply ok_le_bind; [apply Hp|]. intros a r L.
+  eapply ok_le_bind; [apply IH|]. intros l r' L'. simpl. lia.
+Qed.
+
+Lemma sep_loop_ok {A B} (sep : parser B) (p : parser A) : safe sep -> safe p ->
+  forall f i acc, length i < f -> ok_le (length i) (sep_loop sep p f i acc).
+Proof.
+  intros Hs Hp. induction f as [|f IH]; intros i acc L; [lia|]. simpl.
+  pose proof (Hs i) as H1. destruct (sep i) as [a i1| | | |]; simpl in *; auto.
+  destruct (Nat.eqb (length i1) (length i)) eqn:E; simpl; [exact I|].
+  apply Nat.eqb_neq in E.
+  pose proof (Hp i1) as H2. destruct (p i1) as [b i2| | | |]; simpl in *; auto.
+  eapply ok_le_mono; [|apply IH]; lia.
+Qed.
+
+Lemma safe_separated_list1 {A B} (sep : parser B) (p : parser A) :
+  safe sep -> safe p -> safe (separated_list1 sep p).
+Proof.
+  intros Hs Hp i. unfold separated_list1. pose proof (Hp i) as H.
+  destruct (p i) as [a r| | | |]; cbn [ok_le ok_lt] in *; auto.
+  eapply ok_le_mono; [exact H|]. apply sep_loop_ok; auto.
+Qed.
+
+Lemma strict_separated_list1 {A B} (sep : parser B) (p : parser A) :
+  safe sep -> strict p -> strict (separated_list1 sep p).
+Proof.
+  intros Hs Hp i. unfold separated_list1. pose proof (Hp i) as H.
+  destruct (p i) as [a r| | | |]; cbn [ok_le ok_lt] in *; auto.
+  eapply ok_le_lt; [exact H|]. apply sep_loop_ok; auto. apply strict_safe; exact Hp.
+Qed.
+
+(* ---- the float token ---- *)
+
+Lemma safe_cat2 p q : safe p -> safe q -> safe (cat2 p q).
+Proof. intros. unfold cat2. apply safe_pmap, safe_pair; auto. Qed.
+
+Lemma safe_opt_str p : safe p -> safe (opt_str p).
+Proof. intros. unfold opt_str. apply safe_pmap, safe_opt; auto. Qed.
+
+Lemma safe_chr c : safe (chr c).
+Proof. unfold chr. apply safe_pmap, strict_safe, strict_char. Qed.
+
+Lemma safe_sign_str : safe sign_str.
+Proof. unfold sign_str. apply safe_opt_str, safe_alt2; apply safe_chr. Qed.
+
+Lemma safe_digit1 : safe digit1.
+Proof. apply strict_safe, strict_digit1. Qed.
+
+Lemma safe_recognize_float : safe recognize_float.
+Proof.
+  unfold recognize_float.
+  repeat (first [ apply safe_sign_str | apply safe_digit1 | apply safe_chr | apply safe_cut
+                | apply safe_cat2 | apply safe_opt_str | apply safe_alt2 ]).
+Qed.
+
+Lemma safe_float_token : safe float_token.
+Proof.
+  unfold float_token.
+  repeat (first [ apply safe_alt2 | apply safe_recognize_float | apply safe_tag_no_case ]).
+Qed.
+
+(* ---- locality: appending a separator byte (blank, tab, CR, LF) and anything after it to the
+   input of the float parser changes nothing but the rest ---- *)
+
+Definition is_sep (b : byte) : bool := match b with x20 | x09 | x0d | x0a => true | _ => false end.
+
+Lemma blank_is_sep b : is_blank b = true -> is_sep b = true.
+Proof. destruct b; simpl; intros H; try discriminate; reflexivity. Qed.
+
+Definition extend {A} (x : pres A) (Y : str) : pres A :=
+  match x with POk v r => POk v (r ++ Y) | PError => PError | PFailure => PFailure
+             | PIncomplete => PIncomplete | PFuel => PFuel end.
+
+Definition local {A} (p : parser A) : Prop :=
+  forall t h X, is_sep h = true -> p (t ++ h :: X) = extend (p t) (h :: X).
+
+Lemma span_app_stop f t Y :
+  match Y with [] => True | b :: _ => f b = false end ->
+  span f (t ++ Y) = (fst (span f t), snd (span f t) ++ Y).
+Proof.
+  intros HY. induction t as [|b t IH]; simpl.
+  - destruct Y as [|y Y']; [reflexivity|]. simpl. rewrite HY. reflexivity.
+  - destruct (f b); [|reflexivity]. rewrite IH. destruct (span f t). reflexivity.
+Qed.
+
+Lemma sep_facts h : is_sep h = true ->
+  is_digit h = false /\ beq "."%byte h = false /\ beq "e"%byte h = false /\ beq "E"%byte h = false /\
+  beq "+"%byte h = false /\ beq "-"%byte h = false /\ lower h = h /\ is_blank h || is_nl h || beq x0d h = true.
+Proof. destruct h; simpl; intros H; try discriminate; repeat split. Qed.
+
+Lemma local_digit1 : local digit1.
+Proof.
+  intros t h X Hh. destruct (sep_facts h Hh) as (Hd & _). unfold digit1.
+  rewrite (span_app_stop is_digit t (h :: X) Hd). destruct (span is_digit t) as [p r]. simpl.
+  destruct p; reflexivity.
+Qed.
+
+Lemma local_chr c : (forall h, is_sep h = true -> beq c h = false) -> local (chr c).
+Proof.
+  intros Hc t h X Hh. unfold chr, pmap, char_. destruct t as [|b t']; simpl.
+  - rewrite (Hc h Hh). reflexivity.
+  - destruct (beq c b); reflexivity.
+Qed.
+
+Lemma starts_nocase_app p : forall t h X,
+  (forall x, In x p -> beq x (lower h) = false) ->
+  starts_with_nocase p (t ++ h :: X) = starts_with_nocase p t.
+Proof.
+  induction p as [|x p IH]; intros t h X Hp; [reflexivity|]. destruct t as [|b t']; simpl.
+  - rewrite (Hp x (or_introl eq_refl)). reflexivity.
+  - rewrite (IH t' h X); [reflexivity|]. intros y Hy. apply Hp. right. exact Hy.
+Qed.
+
+Lemma local_tag_no_case p :
+  (forall h x, is_sep h = true -> In x p -> beq x h = false) -> local (tag_no_case p).
+Proof.
+  intros Hp t h X Hh. unfold tag_no_case. destruct (sep_facts h Hh) as (_ & _ & _ & _ & _ & _ & Hl & _).
+  rewrite starts_nocase_app; [|intros x Hx; rewrite Hl; apply Hp; assumption].
+  destruct (starts_with_nocase p t) eqn:E; [|reflexivity]. apply starts_with_nocase_length in E.
+  simpl. rewrite firstn_app, skipn_app.
+  replace (length p - length t) with 0 by lia. simpl. rewrite app_nil_r. reflexivity.
+Qed.
+
+Lemma local_pmap {A B} (f : A -> B) p : local p -> local (pmap f p).
+Proof. intros H t h X Hh. unfold pmap. rewrite (H t h X Hh). destruct (p t); reflexivity. Qed.
+
+Lemma local_pair {A B} (p : parser A) (q : parser B) : local p -> local q -> local (pair_ p q).
+Proof.
+  intros Hp Hq t h X Hh. unfold pair_. rewrite (Hp t h X Hh). destruct (p t) as [a r| | | |]; try reflexivity.
+  simpl. rewrite (Hq r h X Hh). destruct (q r); reflexivity.
+Qed.
+
+Lemma local_alt2 {A} (p q : parser A) : local p -> local q -> local (alt2 p q).
+Proof.
+  intros Hp Hq t h X Hh. unfold alt2. rewrite (Hp t h X Hh). destruct (p t); try reflexivity.
+  simpl. apply Hq. exact Hh.
+Qed.
+
+Lemma local_opt {A} (p : parser A) : local p -> local (opt p).
+Proof. intros Hp t h X Hh. unfold opt. rewrite (Hp t h X Hh). destruct (p t); reflexivity. Qed.
+
+Lemma local_cut {A} (p : parser A) : local p -> local (cut p).
+Proof. intros Hp t h X Hh. unfold cut. rewrite (Hp t h X Hh). destruct (p t); reflexivity. Qed.
+
+Lemma local_cat2 p q : local p -> local q -> local (cat2 p q).
+Proof. intros. unfold cat2. apply local_pmap, local_pair; assumption. Qed.
+
+Lemma local_opt_str p : local p -> local (opt_str p).
+Proof. intros. unfold opt_str. apply local_pmap, local_opt; assumption. Qed.
+
+Lemma chr_sep c : (c = "+" \/ c = "-" \/ c = "." \/ c = "e" \/ c = "E")%byte -> local (chr c).
+Proof.
+  intros Hc. apply local_chr. intros h Hh.
+  destruct (sep_facts h Hh) as (_ & H1 & H2 & H3 & H4 & H5 & _).
+  destruct Hc as [->|[->|[->|[->| ->]]]]; assumption.
+Qed.
+
+Lemma local_sign_str : local sign_str.
+Proof. unfold sign_str. apply local_opt_str, local_alt2; apply chr_sep; auto. Qed.
+
+Lemma local_recognize_float : local recognize_float.
+Proof.
+  unfold recognize_float.
+  repeat (first [ apply local_sign_str | apply local_digit1 | apply local_cut
+                | apply chr_sep; tauto
+                | apply local_cat2 | apply local_opt_str | apply local_alt2 ]).
+Qed.
+
+Lemma letters_sep (p : str) :
+  forallb (fun x => N.leb 97 (bN x) && N.leb (bN x) 122)%bool p = true ->
+  forall h x, is_sep h = true -> In x p -> beq x h = false.
+Proof.
+  intros Hp h x Hh Hx. rewrite forallb_forall in Hp. specialize (Hp x Hx).
+  destruct (beq x h) eqn:E; [|reflexivity]. apply beq_eq in E. subst x.
+  destruct h; simpl in Hh; try discriminate; discriminate Hp.
+Qed.
+
+Lemma local_float_token : local float_token.
+Proof.
+  unfold float_token.
+  repeat (first [ apply local_recognize_float
+                | apply local_tag_no_case, letters_sep; reflexivity
+                | apply local_alt2 ]).
+Qed.
